@@ -92,6 +92,29 @@ def opsSolver (op : String) (ins outs : List String) : Option String :=
       match Cover.check cert (Cover.pavingOf new) evs with
       | .ok _ => pure "FAIL stage-rejected"
       | .error e => pure ("FAIL resumed-log-rejected:" ++ e.replace " " "-")
+  | "solbox", [dags, specs, root, e, u, vars, pts], _ => do
+    let ds ← (dags.splitOn "|").mapM parseProgram
+    let ss := specs.splitOn "|"
+    if ds.length != ss.length then none else
+    let eqs := ((List.zip ds ss).filter fun x => x.2 == "eq").map (·.1)
+    let ineqs := (List.zip ds ss).filter fun x => x.2 != "eq"
+    let root ← parseBox root
+    let e ← parseBox e
+    let u ← parseBox u
+    let vars ← parseNatList vars
+    let zs ← (pts.splitOn "|").mapM parsePoint
+    if !(Box.subset e root) then pure "FAIL solution-box-not-inside-the-initial-box" else
+    if !(Cover.innerOk ineqs e) then pure "FAIL inequalities-not-proved-on-the-solution-box" else
+    if zs.any (fun q => Verdict.refutedOutside eqs e u vars q) then
+      pure "FAIL known-zero-in-the-unicity-box-outside-the-existence-box" else
+    if zs.any (fun p => zs.any fun q => Verdict.refutedTwo eqs e vars p q) then
+      pure "FAIL two-known-zeros-in-one-existence-box" else
+    let square := vars.length == e.length
+    let uniq := Box.subset e u && Newton.uniqueCertVars eqs u vars
+    let exKnown := zs.any fun p => Verdict.ratZero eqs p && Verdict.ratIn p e
+    let tagU := if uniq then "uniqueness-certified" else "uniqueness-uncertified"
+    let tagE := if square && exKnown then "existence-by-known-zero" else "existence-uncertified"
+    pure s!"ok solution {if square then "square" else "under-constrained"} {tagU} {tagE}"
   | "solvept", [dags, specs, pt, pv], _ => do
     let ds ← (dags.splitOn "|").mapM parseProgram
     let ss := specs.splitOn "|"
